@@ -95,24 +95,76 @@ def seq(pre, inner, post=()):
     return ("seq", list(pre), inner, list(post))
 
 
-WRAPPERS = {
-    "InFn": (["def _tv_wrap(_tv_a, _tv_b=None):"], []),
-    "InAsyncFn": (["async def _tv_awrap(_tv_a):"], []),
-    "InClassBody": (["class _TvWrap:"], []),
-    "InIf": (["if _tv_mode == 'on':"], []),
-    "InNameIf": (['if __name__ == "_tv_not_main_":'], []),
-    "InFor": (["for _tv_i in _tv_xs:"], []),
-    "InWhile": (["while _tv_cond():"], []),
-    "InTry": (["try:"], ["except _TvErr:", "    raise"]),
-    "InWith": (["with _tv_cm() as _tv_h:"], []),
+# primitive wrappers: (header lines, footer lines); the hole is one indentation level below the LAST header line's level
+PRIM = {
+    "fn": (["def _tv_wrap(_tv_a, _tv_b=None):"], []),
+    "fn2": (["def _tv_inner(_tv_c):"], []),
+    "afn": (["async def _tv_awrap(_tv_a):"], []),
+    "cls": (["class _TvWrap:"], []),
+    "cls2": (["class _TvInner:"], []),
+    "holder": (["class _TvHolder:"], []),
+    "meth": (["def _tv_method(self, _tv_a):"], []),
+    "if": (["if _tv_mode == 'on':"], []),
+    "nameif": (['if __name__ == "_tv_not_main_":'], []),
+    "elif": (["if _tv_mode == 'on':", "    _tv_skip()", "elif _tv_mode == 'off':"], []),
+    "else": (["if _tv_mode == 'on':", "    _tv_skip()", "else:"], []),
+    "for": (["for _tv_i in _tv_xs:"], []),
+    "forelse": (["for _tv_i in _tv_xs:", "    _tv_skip(_tv_i)", "else:"], []),
+    "while": (["while _tv_cond():"], []),
+    "whileelse": (["while _tv_cond():", "    _tv_skip()", "else:"], []),
+    "try": (["try:"], ["except _TvErr:", "    raise"]),
+    "except": (["try:", "    _tv_skip()", "except _TvErr:"], []),
+    "tryelse": (["try:", "    _tv_skip()", "except _TvErr:", "    raise", "else:"], []),
+    "finally": (["try:", "    _tv_skip()", "finally:"], []),
+    "with": (["with _tv_cm() as _tv_h:"], []),
+    "match": (["match _tv_mode:"], []),
+    "case": (["case 'on':"], []),
+    "asyncfor": (["async for _tv_i in _tv_src():"], []),
+    "asyncwith": (["async with _tv_cm() as _tv_h:"], []),
+}
+# every statement position CPython has, as one context class each (outermost primitive first)
+PY_LAYERS = {
+    "InFn": ["fn"], "InAsyncFn": ["afn"], "InNestedFn": ["fn", "fn2"], "InMethod": ["holder", "meth"],
+    "InClassBody": ["cls"], "InClassInClass": ["cls", "cls2"],
+    "InIf": ["if"], "InNameIf": ["nameif"], "InElif": ["elif"], "InElse": ["else"],
+    "InFor": ["for"], "InForElse": ["forelse"], "InWhile": ["while"], "InWhileElse": ["whileelse"],
+    "InTry": ["try"], "InExcept": ["except"], "InTryElse": ["tryelse"], "InFinally": ["finally"],
+    "InWith": ["with"], "InMatchCase": ["match", "case"],
+    "InAsyncFor": ["afn", "asyncfor"], "InAsyncWith": ["afn", "asyncwith"],
+}
+LOOP_CLASSES = ("InFor", "InWhile", "InAsyncFor", "InDoWhile", "InForElse", "InWhileElse")   # a loop statement around a fragment (body or else clause) is not neutral for loop rules
+CLASS_BODY_CLASSES = ("InClassBody", "InClassInClass")
+
+TS_PRIM = {
+    "fn": (["function _tvWrap(_tvA) {"], ["}"]),
+    "arrow": (["const _tvCb = (_tvA) => {"], ["};"]),
+    "holder": (["class _TvHolder {"], ["}"]),
+    "meth": (["_tvMethod(_tvA) {"], ["}"]),
+    "if": (["if (_tvMode === 'on') {"], ["}"]),
+    "else": (["if (_tvMode === 'on') {", "    _tvSkip();", "} else {"], ["}"]),
+    "for": (["for (const _tvI of _tvXs) {"], ["}"]),
+    "while": (["while (_tvCond()) {"], ["}"]),
+    "dowhile": (["do {"], ["} while (_tvCond());"]),
+    "try": (["try {"], ["} catch (_tvE) {", "    throw _tvE;", "}"]),
+    "catch": (["try {", "    _tvSkip();", "} catch (_tvE) {"], ["}"]),
+    "finally": (["try {", "    _tvSkip();", "} finally {"], ["}"]),
+    "switch": (["switch (_tvMode) {"], ["}"]),
+    "case": (["case 'on': {"], ["}"]),
+    "namespace": (["namespace _TvNs {"], ["}"]),
+}
+TS_LAYERS = {
+    "InFn": ["fn"], "InArrow": ["arrow"], "InMethod": ["holder", "meth"], "InIf": ["if"], "InElse": ["else"],
+    "InFor": ["for"], "InWhile": ["while"], "InDoWhile": ["dowhile"], "InTry": ["try"], "InCatch": ["catch"],
+    "InFinally": ["finally"], "InSwitchCase": ["switch", "case"], "InNamespace": ["namespace"],
 }
 
 
-def layer(name, inner):
-    if name == "InMethod":
-        return wrap(["class _TvHolder:"], wrap(["def _tv_method(self, _tv_a):"], inner))
-    h, f = WRAPPERS[name]
-    return wrap(h, inner, f)
+def layer(name, inner, lang="py"):
+    layers, prim = (PY_LAYERS, PRIM) if lang == "py" else (TS_LAYERS, TS_PRIM)
+    for p in reversed(layers[name]):
+        h, f = prim[p]
+        inner = wrap(h, inner, f)
+    return inner
 
 
 def render(ctx, body: list[str], indent: int = 0):
@@ -164,6 +216,8 @@ def ctx_to_coq(ctx, h: int) -> str:
     mod = ast.parse("\n".join(lines) + "\n")
     lo, hi_l = hl, hl + h - 1
 
+    hole_role = []
+
     def in_hole(n):
         return isinstance(n, ast.Pass) and lo <= n.lineno <= hi_l
 
@@ -200,6 +254,7 @@ def ctx_to_coq(ctx, h: int) -> str:
         if not hit:
             raise ValueError("hole not under wrapper")
         f0 = hit[0]
+        hole_role.append(f0)
         a = min(i for i, (f, _) in enumerate(kids) if f == f0)
         b = max(i for i, (f, _) in enumerate(kids) if f == f0) + 1
         region = [k for _, k in kids[a:b]]
@@ -212,7 +267,7 @@ def ctx_to_coq(ctx, h: int) -> str:
         return (f"(Wrap ({info}) {pre} {coq_list(post_nodes)} {nbl - bl} {nbc - bc} "
                 f"{mk_list(region, [f0] * len(region), wl, wc, nbl, nbc)})")
 
-    return mk_list(list(mod.body), ["body"] * len(mod.body), 0, 0, 0, 0)
+    return mk_list(list(mod.body), ["body"] * len(mod.body), 0, 0, 0, 0), (hole_role[-1] if hole_role else "body")
 
 
 def conv_info(n, role, bl, bc) -> str:
@@ -266,6 +321,142 @@ def rename_plan(text: str) -> dict:
             continue
         plan[x] = x + ("_RN" if x.isupper() else ("Rn" if x[:1].isupper() else "_rn"))
     return {k: v for k, v in plan.items() if v not in bound}
+
+
+# identifiers that linters are known to key on, embedded as prefix / infix / suffix, per identifier kind
+RN_TOKENS = ["test", "Test", "mixin", "Mixin", "util", "Utils", "helper", "Helper", "manager", "Manager", "verbose", "debug", "log", "tmp"]
+RN_KINDS = ["cls", "fn", "var"]
+LETTERS = {"var": list("sqwzkjvugh"), "fn": list("qwzkjvughs"), "cls": list("QWZKJVUGH")}
+
+
+def rename_classes() -> list[str]:
+    out = [f"Rn:{k}:{p}:{t}" for k in RN_KINDS for p in ("pre", "in", "suf") for t in RN_TOKENS]
+    out += [f"Rn:{k}:{p}:_" for k in RN_KINDS for p in ("pre", "suf")]
+    out += [f"Rn:{k}:pre:__" for k in RN_KINDS] + ["Rn:fn:both:__", "Rn:var:both:__"]
+    out += [f"Rn:{k}:whole:letter" for k in RN_KINDS] + ["Rn:var:whole:UPPER", "Rn:fn:whole:UPPER"]
+    return out + ["Rename"]
+
+
+def bound_names(text: str) -> dict:
+    """identifiers the fragment itself binds, by kind; plus every identifier-like string it mentions"""
+    tree = ast.parse(text)
+    cls, fn, var, imported, mentioned = set(), set(), set(), set(), set()
+    for n in ast.walk(tree):
+        if isinstance(n, ast.ClassDef):
+            cls.add(n.name)
+        elif isinstance(n, (ast.FunctionDef, ast.AsyncFunctionDef)):
+            fn.add(n.name)
+        elif isinstance(n, ast.arg):
+            var.add(n.arg)
+        elif isinstance(n, ast.Name):
+            mentioned.add(n.id)
+            if isinstance(n.ctx, (ast.Store, ast.Del)):
+                var.add(n.id)
+        elif isinstance(n, ast.Attribute):
+            mentioned.add(n.attr)
+        elif isinstance(n, ast.keyword) and n.arg:
+            mentioned.add(n.arg)
+        elif isinstance(n, (ast.Import, ast.ImportFrom)):
+            for a in n.names:
+                imported.add((a.asname or a.name).split(".")[0])
+                imported.add(a.name.split(".")[-1])
+            if isinstance(n, ast.ImportFrom) and n.module:
+                imported.update(n.module.split("."))
+    var -= cls | fn
+
+    def ok(x):
+        return not (x in imported or x in ("self", "cls", "_") or x in _BUILTINS or keyword.iskeyword(x)
+                    or (x.startswith("__") and x.endswith("__")) or not x.isascii())
+    return {"cls": sorted(x for x in cls if ok(x)), "fn": sorted(x for x in fn if ok(x)), "var": sorted(x for x in var if ok(x)),
+            "all": cls | fn | var | mentioned | imported}
+
+
+def _affix(old: str, kind: str, pos: str, tok: str, rank: int) -> str | None:
+    lead = old[:len(old) - len(old.lstrip("_"))]
+    core = old[len(lead):]
+    if tok == "_":
+        return "_" + old if pos == "pre" else old + "_"
+    if tok == "__":
+        if pos == "pre":
+            return None if old.startswith("__") else "__" + core
+        return "__" + core.strip("_") + "__"
+    if tok == "letter":
+        pool = LETTERS[kind]
+        return pool[rank] if rank < len(pool) else None
+    if tok == "UPPER":
+        return old.upper() if old.upper() != old else None
+    if kind == "cls":
+        if pos == "pre":
+            return lead + tok + core
+        if pos == "suf":
+            return old + tok
+        cut = next((i for i in range(1, len(core)) if core[i].isupper()), max(1, len(core) // 2))
+        return lead + core[:cut] + tok + core[cut:]
+    if pos == "pre":
+        return lead + tok + "_" + core
+    if pos == "suf":
+        return old + "_" + tok
+    if "_" in core.strip("_"):
+        i = core.index("_", 1)
+        return lead + core[:i] + "_" + tok + core[i:]
+    cut = max(1, len(core) // 2)
+    return lead + core[:cut] + tok + core[cut:]
+
+
+def spec_keeps(spec: dict, name: str) -> bool:
+    low = name.lower()
+    return low in spec.get("keep_exact_lower", ()) or any(t in low for t in spec.get("keep_contains_lower", ()))
+
+
+def spec_forbids(spec: dict, kind: str, new: str) -> str | None:
+    low = new.lower()
+    if low in spec.get("forbid_exact_lower", ()):
+        return f"`{new}` is one of the names the document defines the pattern by"
+    for t in spec.get("forbid_contains_lower", ()):
+        if t in low:
+            return f"`{new}` contains `{t}`, by which the document defines the pattern"
+    if kind == "fn":
+        bare = new.lstrip("_")
+        for pfx in spec.get("fn_forbid_prefixes", ()):
+            if bare.startswith(pfx):
+                return f"`{new}` starts with the documented excluded prefix `{pfx}`"
+        if new in spec.get("fn_forbid_names", ()) or bare in spec.get("fn_forbid_names", ()):
+            return f"`{new}` is a documented excluded method name"
+        if spec.get("fn_forbid_dunder") and new.startswith("__") and new.endswith("__"):
+            return f"`{new}` is a dunder method, a documented exclusion"
+    return None
+
+
+def rename_plan_for(text: str, cls: str, spec: dict):
+    """-> (plan, None) or (None, why not).  `Rename` renames everything the fragment binds with a neutral suffix; the
+    Rn:<kind>:<pos>:<token> classes rename the identifiers of one kind, embedding the token at the position."""
+    b = bound_names(text)
+    if cls == "Rename":
+        todo = [(k, x) for k in RN_KINDS for x in b[k]]
+        mk = lambda k, x, r: x + ("_RN" if x.isupper() else ("Rn" if x[:1].isupper() else "_rn"))   # noqa: E731
+    else:
+        _, kind, pos, tok = cls.split(":")
+        todo = [(kind, x) for x in b[kind]]
+        mk = lambda k, x, r: _affix(x, k, pos, tok, r)   # noqa: E731
+    plan, taken, skipped = {}, set(b["all"]), "no identifier of that kind to rename"
+    for rank, (k, x) in enumerate(todo):
+        if spec_keeps(spec, x):
+            skipped = f"`{x}` is part of the documented pattern and keeps its name"
+            continue
+        new = mk(k, x, rank)
+        if new is None or new == x:
+            continue
+        if not new.isidentifier() or keyword.iskeyword(new) or new in _BUILTINS or new in taken or new in plan.values():
+            skipped = f"`{new}` collides with an identifier in use"
+            continue
+        why = spec_forbids(spec, k, new)
+        if why:
+            skipped = "excluded by the documented name rules: " + why
+            continue
+        plan[x] = new
+    if not plan:
+        return None, skipped
+    return plan, None
 
 
 def rename_text(text: str, plan: dict):
@@ -393,7 +584,7 @@ def _gen_block(r, depth) -> list[str]:
     if r.random() < 0.6:
         body.append(f"{r.choice(VARS)} += {r.choice(VALS_STR + VALS_OTHER)}")
     if r.random() < 0.15:
-        body.insert(0, f"{r.choice(VARS)} = {r.choice(['\"\"', 'f\"{x}\"', '[]'])}")
+        body.insert(0, r.choice(VARS) + " = " + r.choice(['""', 'f"{x}"', '[]']))
     out = [hdr] + ["    " + b for b in body]
     if hdr == "try:":
         out += ["except KeyError:", f"    {r.choice(VARS)} = ''", "finally:", "    pass"] if r.random() < 0.5 else ["except KeyError:", "    pass"]
